@@ -652,6 +652,73 @@ def r01_7(ctx, rep):
         raise MechanismMissing(R, "fewer than 2 cache transactions found on the initialised path")
 
 
+@SPEC.rule(
+    "R01.9",
+    "a syntax error is any input the grammar does not derive completely: _parse() rejects (returns None before building "
+    "the tree) when the error listener fired — and that listener is attached to the LEXER as well as to the parser (the "
+    "lexer's default listener only prints 'token recognition error' and drops the character) — and when input is left "
+    "over after the entry rule (the rule stored_definition does not end in EOF, so either the grammar rule must, or "
+    "_parse must compare the next token with Token.EOF)",
+)
+def r01_9(ctx, rep):
+    from ..cfg import CFG
+    from ..grammar import parse_grammar
+    R = "R01.9"
+    fn = ctx.func(PARSER, "_parse", R)
+    site = PARSER + ":_parse"
+    cfg = CFG(fn, R)
+
+    def bound(suffix):
+        return {st.targets[0].id for st in walk_local(fn) if isinstance(st, ast.Assign) and isinstance(st.targets[0], ast.Name)
+                and isinstance(st.value, ast.Call) and (call_name(st.value) or "").endswith(suffix)}
+
+    lexers, parsers, listeners = bound("Lexer"), bound("ModelicaParser"), bound("ErrorListener")
+    if not lexers or not parsers or not listeners:
+        raise MechanismMissing(R, "_parse no longer creates lexer / parser / error listener")
+    entry = [x for x in cfg.stmts() if isinstance(x.ast, ast.Assign) and isinstance(x.ast.value, ast.Call) and isinstance(x.ast.value.func, ast.Attribute)
+             and isinstance(x.ast.value.func.value, ast.Name) and x.ast.value.func.value.id in parsers and not x.ast.value.args
+             and x.ast.value.func.attr not in ("addErrorListener", "removeErrorListeners")]
+    if not entry:
+        raise MechanismMissing(R, "call of the grammar's entry rule not found in _parse")
+    entry_rule = entry[0].ast.value.func.attr
+    for kind, objs in (("parser", parsers), ("lexer", lexers)):
+        adds = [x for x in cfg.stmts() if any(isinstance(c.func, ast.Attribute) and c.func.attr == "addErrorListener" and isinstance(c.func.value, ast.Name)
+                                              and c.func.value.id in objs and c.args and isinstance(c.args[0], ast.Name) and c.args[0].id in listeners
+                                              for c in calls(x.ast))]
+        ok = bool(adds) and all(any(a.id in cfg.dominators()[e.id] for a in adds) for e in entry)
+        rep.ob(R, site, "error listener attached to the %s" % kind, ok,
+               "the recording error listener is not attached to the %s before the entry rule runs: %s" % (
+                   kind, "a character the lexer cannot tokenise is printed and dropped, and the damaged text is parsed (and cached) as if it were valid"
+                   if kind == "lexer" else "syntax errors are not recorded"))
+    walks = [x for x in cfg.stmts() if any((call_name(c) or "").endswith(".walk") for c in calls(x.ast))]
+
+    def err_test(x):
+        return x.kind == "assume" and not x.taken and any(
+            isinstance(a, ast.Attribute) and a.attr == "error" and isinstance(a.value, ast.Name) and a.value.id in listeners for a in ast.walk(x.ast))
+
+    ok = bool(walks) and all(cfg.dominated_by(w.id, err_test) for w in walks)
+    rep.ob(R, site, "recorded error rejects before the tree is built", ok, "the AST listener may only walk the parse tree on the `not listener.error` branch")
+    rules = parse_grammar(ctx.read("src/pymoca/Modelica.g4", R))
+    g_eof = False
+    if entry_rule in rules:
+        g_eof = all(a.elems and a.elems[-1].kind == "token" and a.elems[-1].value == "EOF" for a in rules[entry_rule].alts)
+
+    def eof_test(x):
+        if x.kind != "assume" or x.taken:
+            return False
+        for c in ast.walk(x.ast):
+            if isinstance(c, ast.Compare) and len(c.ops) == 1 and isinstance(c.ops[0], ast.NotEq) and \
+                    any(isinstance(a, ast.Attribute) and a.attr == "EOF" for a in ast.walk(c)) and any(
+                        isinstance(k, ast.Call) and isinstance(k.func, ast.Attribute) and k.func.attr in ("LA", "LT") for k in ast.walk(c)):
+                return True
+        return False
+
+    code_eof = bool(walks) and all(cfg.dominated_by(w.id, eof_test) for w in walks)
+    rep.ob(R, site, "whole input consumed", g_eof or code_eof,
+           "entry rule `%s` does not end in EOF and _parse does not compare the next token with Token.EOF: text after the last complete "
+           "class (`model A end A; garbage`, a lone `)`) is ignored, a tree is returned and cached" % entry_rule)
+
+
 # ---------------------------------------------------------------------------
 # seeded variants (thorough tier)
 
@@ -774,3 +841,20 @@ def _m_wrong_blob(mod):
         return False
 
     return mod if replace_in_func(mod, "parse", edit) else None
+
+
+@SPEC.mutant("error listener on the parser only", PARSER, "R01.9", "lexer")
+def _m_lexer_listener(mod):
+    return mod if delete_stmt_where(mod, "_parse", lambda st: norm(st).startswith("lexer.addErrorListener(")) else None
+
+
+@SPEC.mutant("left-over input accepted", PARSER, "R01.9", "whole input")
+def _m_eof(mod):
+    def edit(fn):
+        for n in ast.walk(fn):
+            if isinstance(n, ast.If) and isinstance(n.test, ast.BoolOp) and any("EOF" in norm(v) for v in n.test.values):
+                n.test = [v for v in n.test.values if "EOF" not in norm(v)][0]
+                return True
+        return False
+
+    return mod if replace_in_func(mod, "_parse", edit) else None
